@@ -11,11 +11,11 @@ Proof.
 Qed.
 
 Lemma in_cmds_cases : forall cf t cs cm,
-  apply_cmds cf t = Some cs -> In cm cs ->
+  apply_cmds_legacy cf t = Some cs -> In cm cs ->
   (exists c, In c (t_dirty t) /\ (In cm (pass1 t c) \/ In cm (pass2 t c) \/ In cm (pass4 t c)))
   \/ (exists c r, In c (t_dirtyIA t) /\ pass3 cf t c = Some r /\ In cm r).
 Proof.
-  intros cf t cs cm Ha Hin. unfold apply_cmds in Ha.
+  intros cf t cs cm Ha Hin. unfold apply_cmds_legacy in Ha.
   destruct (pass3_all cf t (t_dirtyIA t)) as [p3|] eqn:E3; try discriminate. inversion Ha; subst. clear Ha.
   rewrite !in_app_iff in Hin. destruct Hin as [Hin|[Hin|[Hin|Hin]]].
   - apply in_flat_map in Hin. destruct Hin as [c [Hc Hin]]. left. exists c. auto.
@@ -25,7 +25,7 @@ Proof.
 Qed.
 
 Theorem no_rewrite_owned : forall cf t cs c ch,
-  apply_cmds cf t = Some cs ->
+  apply_cmds_legacy cf t = Some cs ->
   owned cf c = true ->
   (forall c', In c' (t_dirtyIA t) -> owned cf c' = false) ->
   desired t c = Some ch ->
@@ -47,7 +47,7 @@ Proof.
 Qed.
 
 Theorem no_rewrite_hooks : forall cf t cs c,
-  apply_cmds cf t = Some cs ->
+  apply_cmds_legacy cf t = Some cs ->
   owned cf c = false ->
   (forall c', In c' (t_dirty t) -> owned cf c' = true) ->
   ia_in_sync cf t c = true ->
@@ -62,3 +62,24 @@ Proof.
   - destruct (pass3_spec _ _ _ _ _ Hp Hr) as [E _]. rewrite Hf in E. subst c'.
     unfold pass3 in Hp. rewrite Hs in Hp. inversion Hp; subst. contradiction.
 Qed.
+
+(* the same, stated on the mode-dispatching apply_cmds for the legacy backend *)
+Lemma apply_cmds_legacy_eq : forall cf t, cf_nft cf = false -> apply_cmds cf t = apply_cmds_legacy cf t.
+Proof. intros. unfold apply_cmds. rewrite H. reflexivity. Qed.
+
+Theorem no_rewrite_owned' : forall cf t cs c ch,
+  cf_nft cf = false -> apply_cmds cf t = Some cs ->
+  owned cf c = true ->
+  (forall c', In c' (t_dirtyIA t) -> owned cf c' = false) ->
+  desired t c = Some ch ->
+  get c (t_dp t) = Some (hashes_of (ch_rules ch)) ->
+  ~ In c (map fst cs).
+Proof. intros cf t cs c ch Hn Ha. rewrite apply_cmds_legacy_eq in Ha by auto. eapply no_rewrite_owned; eauto. Qed.
+
+Theorem no_rewrite_hooks' : forall cf t cs c,
+  cf_nft cf = false -> apply_cmds cf t = Some cs ->
+  owned cf c = false ->
+  (forall c', In c' (t_dirty t) -> owned cf c' = true) ->
+  ia_in_sync cf t c = true ->
+  ~ In c (map fst cs).
+Proof. intros cf t cs c Hn Ha. rewrite apply_cmds_legacy_eq in Ha by auto. eapply no_rewrite_hooks; eauto. Qed.
